@@ -144,3 +144,50 @@ func VerifC02_APIOnTerminal() {
 	}
 	check("api returned")
 }
+
+// VerifC02_TerminatesDuringRevalidation: the channel becomes terminal WHILE an incoming restart
+// request is being re-validated (the application cancels it, or the counterparty's cancel arrives,
+// inside the validator callback). Once the state machine has terminated (its Sends report
+// ErrTerminated), the restart must still be refused: no accepted reply, no transport request,
+// and the terminated record keeps its status.
+func VerifC02_TerminatesDuringRevalidation() {
+	f, st, chid := verifInstalled(1, 0)
+	zz.Assume(st.SelfPeer == st.Responder)
+	zz.Assume(!channels.IsChannelTerminated(st.Status) && !channels.IsChannelCleaningUp(st.Status))
+	zz.Assert(f.m.RegisterVoucherType(st.Vouchers[0].Type, f.val) == nil, "register")
+	f.val.Result = datatransfer.ValidationResult{Accepted: true, DataLimit: st.DataLimit, RequiresFinalization: st.RequiresFinalization}
+	how := zz.Choice("how", 2)
+	f.val.Hook = func() {
+		if how == 0 {
+			_ = f.m.channels.Cancel(chid)
+		} else {
+			_ = f.m.channels.Error(chid, zz.Error("appfail"))
+		}
+	}
+	req := verifScalarRequest("req")
+	zz.Assume(req.MessageType == 6) // restart
+	req.TransferId = uint64(chid.ID)
+	base := st.BaseCid
+	req.BaseCidPtr = &base
+	req.SelectorPtr = st.Selector.Node
+	req.VoucherPtr = st.Vouchers[0].Voucher.Node
+	req.VoucherTypeIdentifier = st.Vouchers[0].Type
+	req.Pull = st.Initiator == st.Recipient
+	_ = f.rcv.receiveRequest(context.Background(), chid.Initiator, req)
+	zz.Settle()
+	post := f.g.VerifPeek(chid)
+	zz.Assert(channels.IsChannelTerminated(post.Status), "the channel terminated during re-validation")
+	want := datatransfer.Cancelled
+	if how == 1 {
+		want = datatransfer.Failed
+	}
+	zz.Assert(post.Status == want, "and keeps its terminal status")
+	if f.g.VerifTerminatedSeen() {
+		replies, _ := verifReplies(f)
+		for _, r := range replies {
+			zz.Assert(!r.Accepted(), "a restart of a channel that terminated meanwhile is refused")
+		}
+		zz.Assert(f.tr.count("open") == 0, "and re-opens no transport request")
+		zz.Reach("refused after terminating during re-validation")
+	}
+}
